@@ -61,9 +61,20 @@ def gen_case(rng, quick=True, drivers=False):
              for i in range(m)]
         N = [[sum(L[i][k] * L[j][k] for k in range(m)) for j in range(m)] for i in range(m)]
     d = [rng.randint(-3, 3) for _ in range(m)]
+    # documented options of the entry points: affine offset of the forward model, model_is_linear, position, samples,
+    # classic curvature with/without sampling controller, sampling modes of the drivers
+    offset = [rng.randint(-2, 2) for _ in range(m)] if rng.random() < 0.4 else [0] * m
+    affine = any(offset)
+    wf_linear = (not affine) and rng.random() < 0.5
+    wf_pos = rng.choice(["zero", "nonzero", "nonzero"] if not wf_linear else ["none", "zero", "nonzero"])
     return dict(n=n, m=m, shape=shape, rank=rank, noise=noise, R=[[rs(x) for x in r] for r in R],
                 N=[[rs(x) for x in r] for r in N], d=[rs(x) for x in d], drivers=drivers,
-                seed=rng.randint(0, 2 ** 31 - 1), dict_domain=(n >= 2 and rng.random() < 0.3))
+                seed=rng.randint(0, 2 ** 31 - 1), dict_domain=(n >= 2 and rng.random() < 0.3),
+                offset=[rs(x) for x in offset], wf_linear=wf_linear, wf_pos=wf_pos,
+                wf_position=[rs(dyadic(rng, -2, 2, 1)) for _ in range(n)], wf_samples=rng.choice([0, 0, 2]),
+                cl_sampling_ic=rng.random() < 0.5,
+                okl_mode=rng.choice(["linear_resample", "nonlinear_resample", "linear_sample"]),
+                cl_geovi=rng.random() < 0.4, quick=bool(quick))
 
 
 def _np(c):
@@ -71,6 +82,10 @@ def _np(c):
     N = np.array([fll(r) for r in c["N"]], dtype=float).reshape(c["m"], c["m"])
     d = np.array(fll(c["d"]), dtype=float)
     return R, N, d
+
+
+def _off(c):
+    return np.array(fll(c.get("offset", ["0"] * c["m"])), dtype=float)
 
 
 def _sym_sqrt_inv(N):
@@ -92,6 +107,7 @@ def _jax_likelihood(c):
     R, N, d = _np(c)
     Ninv = jnp.array(np.linalg.inv(N))
     Rj = jnp.array(R)
+    off = jnp.array(_off(c))
     if c["noise"] == "full":
         S = jnp.array(_sym_sqrt_inv(N))
         lh = jft.Gaussian(jnp.array(d), noise_cov_inv=lambda x: Ninv @ x, noise_std_inv=lambda x: S @ x)
@@ -101,12 +117,12 @@ def _jax_likelihood(c):
     if c["dict_domain"]:
         n1 = max(1, c["n"] // 2)
         dom = jft.Vector({"a": jft.ShapeWithDtype((n1,)), "b": jft.ShapeWithDtype((c["n"] - n1,))})
-        fwd = lambda x: Rj @ jnp.concatenate([x["a"], x["b"]])
+        fwd = lambda x: Rj @ jnp.concatenate([x["a"], x["b"]]) + off
         flat = lambda x: np.concatenate([np.asarray(_tree(x)["a"]), np.asarray(_tree(x)["b"])])
         wrap = lambda v: jft.Vector({"a": v[:n1], "b": v[n1:]})
     else:
         dom = jft.ShapeWithDtype((c["n"],))
-        fwd = lambda x: Rj @ x
+        fwd = lambda x: Rj @ x + off
         flat = lambda x: np.asarray(x)
         wrap = lambda v: v
     return lh.amend(fwd, domain=dom), flat, wrap, jnp.array(N)
@@ -121,11 +137,23 @@ def real_wiener_jax(c, signal_space):
         jax = jax_setup()
         import nifty.re as jft
         lh, flat, wrap, N = _jax_likelihood(c)
+        import jax.numpy as jnp
         kw = dict(noise_covariance=(lambda x: N @ x)) if not signal_space else {}
-        smpls, _ = jft.wiener_filter_posterior(lh, key=jax.random.PRNGKey(c["seed"]), n_samples=0,
+        mode = c.get("wf_pos", "none")
+        if mode == "zero":
+            kw["position"] = wrap(jnp.zeros(c["n"]))
+        elif mode == "nonzero":
+            kw["position"] = wrap(jnp.array(fll(c["wf_position"])))
+        ns = c.get("wf_samples", 0)
+        smpls, _ = jft.wiener_filter_posterior(lh, key=jax.random.PRNGKey(c["seed"]), n_samples=ns,
                                                draw_linear_kwargs=dict(cg_kwargs=CG_KW), signal_space=signal_space,
-                                               jit=False, **kw)
-        return flat(smpls.pos)
+                                               jit=False, model_is_linear=c.get("wf_linear", True), **kw)
+        mean = flat(smpls.pos)
+        if ns:
+            smean = np.mean([flat(x) for x in smpls], axis=0)
+            if not np.max(np.abs(smean - mean)) <= 1e-12 * max(1.0, np.max(np.abs(mean))):
+                return mean + (smean - mean) + 1e3        # mirrored samples must average to the mean: make it visible
+        return mean
     return safe(go)
 
 
@@ -141,7 +169,8 @@ def real_okl_jax(c, n_samples):
                                     n_samples=n_samples, draw_linear_kwargs=dict(cg_name=None, cg_kwargs=CG_KW),
                                     nonlinearly_update_kwargs=dict(minimize_kwargs=dict(name=None, xtol=1e-12,
                                                                    cg_kwargs=dict(name=None, **CG_KW), maxiter=5)),
-                                    kl_kwargs=dict(minimize_kwargs=mkw), sample_mode="linear_resample", odir=None)
+                                    kl_kwargs=dict(minimize_kwargs=mkw), sample_mode=c.get("okl_mode", "linear_resample"),
+                                    odir=None)
         return flat(smpls.pos)
     return safe(go)
 
@@ -179,7 +208,7 @@ def _cl_setup(c):
     dd = ift.UnstructuredDomain(c["m"])
     Rop = _Dense.make(ift, sd, dd, R)
     Nop = ift.DiagonalOperator(ift.makeField(dd, np.diag(N).copy()), sampling_dtype=np.float64)
-    return ift, Rop, Nop, ift.makeField(dd, d), sd, dd
+    return ift, Rop, Nop, ift.makeField(dd, d - _off(c)), sd, dd
 
 
 def _val(f):
@@ -191,7 +220,7 @@ def real_curvature_cl(c):
         ift, Rop, Nop, d, sd, dd = _cl_setup(c)
         ic = ift.AbsDeltaEnergyController(1e-14, iteration_limit=200, convergence_level=3)
         S = ift.ScalingOperator(sd, 1.0)
-        curv = ift.WienerFilterCurvature(Rop, Nop, S, ic, ic)
+        curv = ift.WienerFilterCurvature(Rop, Nop, S, ic, ic if c.get("cl_sampling_ic", True) else None)
         j = Rop.adjoint_times(Nop.inverse_times(d))
         return _val(curv.inverse_times(j))
     return safe(go)
@@ -205,7 +234,9 @@ def real_okl_cl(c, n_samples):
             lh = ift.GaussianEnergy(d, inverse_covariance=Nop.inverse) @ Rop.ducktape("xi")
             ic = ift.AbsDeltaEnergyController(1e-14, iteration_limit=200, convergence_level=3)
             mini = ift.NewtonCG(ift.AbsDeltaEnergyController(1e-14, iteration_limit=20, convergence_level=3))
-            res = ift.optimize_kl(lh, 2, n_samples, mini, ic, nonlinear_sampling_minimizer=None,
+            geo = ift.NewtonCG(ift.AbsDeltaEnergyController(1e-14, iteration_limit=10, convergence_level=3)) \
+                if (c.get("cl_geovi") and n_samples) else None
+            res = ift.optimize_kl(lh, 2, n_samples, mini, ic, nonlinear_sampling_minimizer=geo,
                                   output_directory=None, initial_position=ift.MultiField.from_dict({"xi": ift.full(sd, 0.3)}),
                                   plot_energy_history=False, plot_minisanity_history=False,
                                   return_final_position=True, sanity_checks=False)
@@ -219,7 +250,7 @@ def real_okl_cl(c, n_samples):
 def exact_mean_numpy(c):
     R, N, d = _np(c)
     Ninv = np.linalg.inv(N)
-    return np.linalg.solve(R.T @ Ninv @ R + np.eye(c["n"]), R.T @ Ninv @ d)
+    return np.linalg.solve(R.T @ Ninv @ R + np.eye(c["n"]), R.T @ Ninv @ (d - _off(c)))
 
 
 def _solvers(c):
@@ -228,9 +259,9 @@ def _solvers(c):
     if c["noise"] != "full":
         s.append("cl_curvature")
     if c["drivers"]:
-        s += ["jax_map", "jax_mgvi"]
+        s += ["jax_mgvi"] + ([] if c.get("quick") else ["jax_map"])
         if c["noise"] != "full":
-            s += ["cl_mgvi"]
+            s += ["cl_mgvi"] + ([] if c.get("quick") else ["cl_map"])
     return s
 
 
@@ -241,6 +272,7 @@ _RUN = {
     "jax_map": lambda c: real_okl_jax(c, 0),
     "jax_mgvi": lambda c: real_okl_jax(c, 2),
     "cl_mgvi": lambda c: real_okl_cl(c, 2),
+    "cl_map": lambda c: real_okl_cl(c, 0),
 }
 _CACHE = {}
 
@@ -279,16 +311,33 @@ def shrink(case):
         yield dict(case, n=n - 1, R=[r[:-1] for r in case["R"]])
 
 
+def _gen_where(rng, quick, pred, **kw):
+    for _ in range(200):
+        c = gen_case(rng, quick, **kw)
+        if pred(c):
+            return c
+    return c
+
+
 def run(ctx):
     rng = ctx.rng
-    cases = [gen_case(rng, ctx.quick) for _ in range(ctx.n(16, 200))]
-    cases += [gen_case(rng, ctx.quick, drivers=True) for _ in range(ctx.n(2, 12))]
-    outs = ctx.model(DRIVER, [dict(op="wiener", R=c["R"], N=c["N"], d=c["d"], n=c["n"]) for c in cases])
+    cases = [gen_case(rng, ctx.quick) for _ in range(ctx.n(6, 200))]
+    cases += [gen_case(rng, ctx.quick, drivers=True) for _ in range(ctx.n(1, 12))]
+    # directed: every documented option combination that changes a code path is present in every run
+    nz = lambda c: any(fr(x) != 0 for r in c["R"] for x in r)
+    cases.append(_gen_where(rng, ctx.quick, lambda c: nz(c) and not c["wf_linear"] and c["wf_pos"] == "nonzero"
+                            and not any(fr(x) != 0 for x in c["offset"])))
+    cases.append(_gen_where(rng, ctx.quick, lambda c: nz(c) and any(fr(x) != 0 for x in c["offset"]) and c["wf_samples"] > 0))
+    cases.append(_gen_where(rng, ctx.quick, lambda c: nz(c) and c["wf_linear"] and c["wf_pos"] == "none" and c["rank"] != "full"))
+    cases.append(_gen_where(rng, ctx.quick, lambda c: nz(c) and c["noise"] != "full" and not c["cl_sampling_ic"]))
+    outs = ctx.model(DRIVER, [dict(op="wiener", R=c["R"], N=c["N"], n=c["n"],
+                                   d=[rs(fr(a) - fr(b)) for a, b in zip(c["d"], c["offset"])]) for c in cases])
     for c, m in zip(cases, outs):
         nontriv = any(fr(x) != 0 for r in c["R"] for x in r) and any(fr(x) != 0 for x in c["d"])
         ctx.case(c, nontriv)
-        for k in ("shape", "rank", "noise"):
+        for k in ("shape", "rank", "noise", "wf_linear", "wf_pos", "wf_samples", "cl_sampling_ic"):
             ctx.stat(f"{k}={c[k]}")
+        ctx.stat("affine" if any(fr(x) != 0 for x in c["offset"]) else "linear")
         ctx.stat(f"n={c['n']},m={c['m']}")
         if is_err(m):
             ctx.broke("correspondence", "model driver", f"{m} on {c}")
